@@ -305,9 +305,25 @@ MANIFEST = dict(
     technique='contract-based deductive verification: monitor invariant + case contracts over reals, z3',
 )
 LEVEL = 'proof'
-TRUSTED = ['A-REAL', 'A-CLOCK-MONOTONE', 'finite-sum lemmas SUM-update and SUM-member-bound (background axioms)', 'A-LOCK']
+TRUSTED = ['A-REAL', 'A-CLOCK-MONOTONE', 'A-LOCK',
+           'finite-sum lemmas SUM-update / SUM-member-bound: proved in lean/FiniteSums.lean, model of the quantified axiom in lean/SumModel.lean; trusted: the by-inspection correspondence SMT statement <-> Lean statement']
 ASSUMPTIONS = TRUSTED
 EXPLANATION = 'leaky bucket monitor and stream wrapper contracts'
+
+
+def extra_obligations(eng, R, tier):
+    """The finite-sum lemmas (SUM-update / SUM-member-bound) are proved in Lean 4 / Mathlib (/verif/lean); the thorough tier re-checks them."""
+    info = {'finite_sum_lemmas': {'statement_in_smt': 'background axioms / assumed instances in this module',
+                                  'proved_in': ['FiniteSums.lean', 'SumModel.lean'], 'theorems': {'FiniteSums.lean': ['SUM_update', 'SUM_update_present', 'SUM_member_bound'], 'SumModel.lean': ['exists_SUM_model']},
+                                  'status': 'proved in Lean (re-checked by the thorough tier); the correspondence between the '
+                                            'SMT statement and the Lean statement is by inspection (dict = finite key set + value function)'}}
+    if tier == 'thorough':
+        from pyvc.lean import check_lean
+        r = check_lean(['FiniteSums.lean', 'SumModel.lean'], {'FiniteSums.lean': ['SUM_update', 'SUM_update_present', 'SUM_member_bound'], 'SumModel.lean': ['exists_SUM_model']})
+        info['finite_sum_lemmas']['recheck'] = r
+        if r['status'] == 'failed':
+            info['checker_errors'] = ['lean re-check of the finite-sum lemmas failed: ' + '; '.join(r['detail'])[:600]]
+    return info
 
 
 def bounded_checks(tier, seed):
